@@ -105,7 +105,7 @@ func runC05(r *mon.Run) {
 	}
 	nFixed := len(list)
 	nRandom := r.N(6000, 150000)
-	r.Require("c05:sbm:single-byte", "c05:sbm:zero-byte", "c05:sbm:zero-nibble", "c05:sbm:random-zero-nibble", "c05:sbm:s=0", "c05:sbm:value:m-1")
+	r.Require("c05:sbm:single-byte", "c05:sbm:zero-byte", "c05:sbm:zero-nibble", "c05:sbm:random-zero-nibble", "c05:sbm:s=0", "c05:sbm:value:m-1", "c05:sbm:Public()-first")
 	entry := []string{"ScalarBaseMult", "ScalarMult(s,G)", "DoubleScalarMultBasepointVartime(s,0,P)", "scalarBaseMultVartime", "NewPrivateKey(d).PublicKey()"}
 	pool := knownPointPool(r.Seed, 4)
 	r.Each("c05/basemult", nFixed+nRandom, func(w *mon.W, i int) {
@@ -174,6 +174,14 @@ func runC05(r *mon.Run) {
 					w.Fail("c05/NewPrivateKey", fmt.Sprintf("NewPrivateKey(%x): %v", s, err), "s", hb(s))
 					continue
 				}
+				// which accessor sees the freshly built key first is the caller's choice
+				if rng.Bool() {
+					w.Class("c05:sbm:Public()-first")
+					if msg := publicAccessorFirst(k, want); msg != "" {
+						w.Fail("c05/Public()", fmt.Sprintf("NewPrivateKey(%x): %s", s, msg), "s", hb(s))
+						continue
+					}
+				}
 				if !bytes.Equal(k.PublicKey().Bytes(), oracle.EncodeUncompressed(want)) {
 					w.Fail("c05/PublicKey", fmt.Sprintf("NewPrivateKey(%x).PublicKey() = %x, expected %x", s, k.PublicKey().Bytes(), oracle.EncodeUncompressed(want)), "s", hb(s))
 				}
@@ -192,6 +200,12 @@ func runC05(r *mon.Run) {
 				cs := scalarFromBig(s)
 				k2, err := secec.NewPrivateKeyFromScalar(cs)
 				cs.Add(cs, secp256k1.NewScalarFromUint64(1))
+				if err == nil && rng.Bool() {
+					if msg := publicAccessorFirst(k2, want); msg != "" {
+						w.Fail("c05/Public()", fmt.Sprintf("NewPrivateKeyFromScalar(%x): %s", s, msg), "s", hb(s))
+						continue
+					}
+				}
 				if err != nil {
 					w.Fail("c05/NewPrivateKeyFromScalar", fmt.Sprintf("NewPrivateKeyFromScalar(%x): %v", s, err), "s", hb(s))
 				} else if d2 := bigFromScalar(k2.Scalar()); !bytes.Equal(k2.PublicKey().Bytes(), oracle.EncodeUncompressed(oracle.MulG(d2))) || d2.Cmp(s) != 0 {
@@ -209,4 +223,8 @@ func runC05(r *mon.Run) {
 	_ = gen.CtrlValues
 	// first use of the generator tables in a fresh process, through every entry point that reads them
 	runColdStart(r, "c05", r.N(24, 400), "sbm", "dsm", "pubkey", "sign", "verify")
+	// the generator tables as a fresh process builds them under different scheduler
+	// widths: every single-byte scalar through the constant-time and the
+	// variable-time fixed-base entry points, compared with the reference table
+	runColdStart(r, "c05", r.N(16, 48), "gtable")
 }
